@@ -345,18 +345,25 @@ func VerifC13GoIdentifiers() {
 	default:
 		name, irregular = w("w1")+"_"+d("d1")+w("w2"), true
 	}
-	got := clientgen.VerifSnakeToUpperCamel(name)
+	// the request field as protoc-gen-go declares it
 	want := verif.GoCamelCase(name)
+	req := verif.NewMessage("acme.v1", "Req")
+	verif.AddField(req, &verif.FieldDesc{FName: name, FJSON: name, FKind: protoreflect.StringKind, FNumber: 1, FOpts: &descriptorpb.FieldOptions{}}, want)
+	lines := verif.Trace(clientgen.VerifURLLinesFor(req, "/x/{"+name+"}", []string{name}))[0].Lines
+	// the emitted replacement line must name the field by protoc-gen-go's identifier
+	wantLine := "path = strings.Replace(path, \"{" + name + "}\", url.PathEscape(fmt.Sprint(req." + want + ")), 1)"
+	found := false
+	for _, l := range lines {
+		found = verif.Or(found, l == wantLine)
+	}
 	verif.Show("name", name)
-	verif.Show("client", got)
 	verif.Show("protoc-gen-go", want)
 	if irregular {
-		// an underscore that is not followed by a lower-case letter (digit, underscore, end)
-		verif.Expect("KF-C13-client-go-identifier-differs-for-underscore-before-non-letter", got == want)
-		verif.Reach("C13/idents/kf")
-		return
+		// an underscore that is not followed by a lower-case letter (digit, underscore, end):
+		// the region of the defect repaired in 72ff63d
+		verif.Reach("C13/idents/irregular")
 	}
-	verif.Assert("C13/client-go-identifier=protoc-gen-go-identifier", got == want)
+	verif.Assert("C13/client-go-identifier=protoc-gen-go-identifier", found)
 	verif.Reach("C13/idents/decided")
 }
 
